@@ -548,10 +548,18 @@ pub fn history(g: &mut Gen, cfg: &HistCfg) -> Vec<Step> {
             15 => {
                 let e = g.rng.below(extra.len() as u64) as usize;
                 let slot = (nm + e) as u8;
-                match g.rng.below(5) {
+                match g.rng.below(6) {
                     0 => {
                         extra[e] = None;
                         steps.push(Step::Release { h: slot });
+                    }
+                    5 => {
+                        // every database handle of the directory goes away while map handles stay
+                        // alive (a helper that returns only the map): the maps must keep working
+                        // and close cleanly without it
+                        for d in [cfg.maps[m].dir, 4, 5] {
+                            steps.push(Step::DbDrop { d });
+                        }
                     }
                     1 | 2 => {
                         extra[e] = Some(m);
